@@ -96,6 +96,40 @@ Fixpoint c01_reject_ok (l : list event) : bool :=
   end.
 Definition c01_ok (q : request) (o : xobs) : bool := c01_reject_ok (x_events o) && c16_ok q o.
 
+(* ---- C07: a Timeout that is the outermost policy: ErrExceeded is returned iff its listener fired, which
+        happens at most once and not before start + limit; otherwise the listener never fires *)
+Definition c07_ok (q : request) (o : xobs) : bool :=
+  match q_stack q with
+  | PTimeout limit :: _ =>
+      let fired := filter (fun e => kind_is KTimeoutExceeded e && Nat.eqb (e_pos e) 0) (x_events o) in
+      let is_timeout := match snd (x_out o) with Some ETimeout => true | _ => false end in
+      (Z.of_nat (length fired) <=? 1)
+      && (match fired with
+          | [e] => is_timeout && (x_start o + limit <=? e_time e)
+          | _ => negb is_timeout || existsb (fun e => kind_is KFnEnd e && match snd (e_out e) with Some ETimeout => true | _ => false end) (x_events o)
+                 || existsb (kind_is KFallbackExecuted) (x_events o) || existsb (kind_is KTimeoutExceeded) (x_events o)
+          end)
+  | _ => true
+  end.
+
+(* ---- C08: after an external cancellation at most one further attempt starts, and the execution does
+        not outlive the step that was in progress (function invocation) when the cancellation fired *)
+Definition c08_ok (q : request) (o : xobs) : bool :=
+  match q_ext q with
+  | Some (dt, _) =>
+      let tc := x_start o + dt in
+      if x_end o <? tc then true
+      else
+        (Z.of_nat (length (filter (fun e => kind_is KFnStart e && (tc <? e_time e)) (x_events o))) <=? 1)
+        && (let ends_after := filter (fun e => kind_is KFnEnd e && (tc <=? e_time e)) (x_events o) in
+            match ends_after with
+            | [] => x_end o <=? tc
+            | e :: _ => x_end o <=? Z.max tc (e_time e)
+            end
+            || negb (forallb (fun s => match fs_coop s with Some _ => true | None => false end) (q_script q) && q_withexec q))
+  | None => true
+  end.
+
 Fixpoint all_reqs (f : request -> xobs -> bool) (qs : list request) (os : list xobs) : bool :=
   match qs, os with
   | q :: qs', o :: os' => f q o && all_reqs f qs' os'
